@@ -410,6 +410,7 @@ def run(ctx):
     pool = multiprocessing.Pool(min(14, os.cpu_count() or 2))
     try:
         run_shapes(ctx, drv, treq)
+        run_structural(ctx, drv, treq)       # w6-f24
         run_bitmaps(ctx, drv, treq, pool)
         run_generated(ctx, drv, treq, pool)
         run_corpus(ctx, drv, pool)
@@ -462,6 +463,28 @@ def run_shapes(ctx, drv, treq):
         if obs.get('wire', 'ok') != 'ok':
             ctx.count('wire-fails')
         check_one(ctx, ids, b, obs, model, tag=tag)
+
+
+# --- w6-f24 (begin): finding F24 -------------------------------------------------------------------
+def run_structural(ctx, drv, treq):
+    """compressed messages in which a delayed replication factor / a bitmap bit is missing or different in one subset
+    (harness/structcols.py, assembled bit-level): whatever decodes has to be shown by all four renderings, each
+    converting back to the flat JSON"""
+    from harness import structcols
+    rng = ctx.rng('structural')
+    cases = structcols.make_cases(rng, 120 if ctx.tier == 'quick' else 2500)
+    obss = [V.observe(c['bytes']) for c in cases]
+    # (not views_request: a refused message has no `compressed` / `n_subsets` in its observation)
+    models = drv.batch([treq] + [{'op': 'views', 'ids': c['ids'], 'compressed': True, 'n': c['n'], 'bits': C.data_bits(c['bytes'])}
+                                 for c in cases])[1:] if cases else []
+    for c, obs, model in zip(cases, obss, models):
+        tag = 'structural:%s:%s' % (c['column'], c['kind'])
+        ctx.case({'ids': c['ids'], 'n': c['n'], 'compressed': True, 'shape': tag, 'label': c['label'], 'position': c['position']},
+                 nontrivial=obs.get('decode') == 'ok', sample=False)
+        ctx.traces += 1
+        ctx.count('%s:%s' % (tag, 'decodes' if obs.get('decode') == 'ok' else 'refused'))
+        check_one(ctx, c['ids'], c['bytes'], obs, model, tag=tag)
+# --- w6-f24 (end) -----------------------------------------------------------------------------------
 
 
 def run_generated(ctx, drv, treq, pool):
